@@ -46,7 +46,7 @@ fn %(name)s() {
     assert!(r.is_ok(), "LONGHASH_OK");
     unsafe {
         assert!(B2S.b2_n == %(ncalls)d, "LONGHASH_CALLS: V1 plus one 64-byte-input hash per further 32 output bytes");
-        let first_len: u8 = if %(T)d <= 64 { %(T)d } else { 64 };
+        let first_len: u8 = (if %(T)d <= 64 { %(T)d } else { 64 }) as u8;
         assert!(B2S.b2_hin[0] == b2_h0(first_len, 0, &[0u8; 16], &[0u8; 16]), "LONGHASH_V1_PARAMS: V1 = BLAKE2b-min(T,64), unkeyed");
         assert!(B2S.b2_t[0][0] == %(xlen)d + 4 && B2S.b2_f[0][0] == u64::MAX, "LONGHASH_V1_INPUT: one final block of 4 + |X| bytes");
         let tb = (%(T)d as u32).to_le_bytes();
@@ -253,7 +253,7 @@ def sched_suite(tier):
         real = len(it) > 3
         n = "c09_schedule_%s_t%d_m%d%s" % ({1: "i", 2: "id"}[ty], t, m, "_realalpha" if real else "")
         src += h_schedule(n, ty, t, m, real_alpha=real)
-        hs.append(Harness(n, unwind=1030, timeout=3000, mem_gb=16, site="argon2::argon2_hash",
+        hs.append(Harness(n, unwind=1030, timeout=3000, mem_gb=(16 if m < 12 else 30), site="argon2::argon2_hash",
                           desc="block schedule of argon2_hash for type %s, t = %d, m = %d KiB, 1 lane, |P| = 3, |S| = 16 symbolic: H0 layout, first blocks, per-position (prev, ref) selection with symbolic J, "
                                "address generation, XOR passes, tag == RFC 9106 (G and H' replaced by identity-tagging loggers)" % ({1: "i", 2: "id"}[ty], t, m),
                           bounds={"type": ty, "t_cost": t, "m_cost_kib": m, "lanes": 1, "pwlen": 3, "saltlen": 16, "outlen": 32}))
